@@ -248,6 +248,18 @@ func (m *Machine) installPrelude() {
 		m.ctx = m.ctx[:nc]
 		return res
 	})
+	m.bind("hostyield", func(m *Machine, args []Value) []Value {
+		m.hostStep()
+		k, _ := arg(args, 0).(float64)
+		base, _ := arg(args, 1).(float64)
+		vals := make([]Value, int(k))
+		for i := range vals {
+			vals[i] = base + float64(i) + 1
+		}
+		res := m.yield(vals)
+		m.step() // resumed
+		return res
+	})
 	m.bind("hostpcall", func(m *Machine, args []Value) []Value {
 		m.hostStep()
 		if len(args) == 0 {
